@@ -130,6 +130,54 @@ def breakdown(res):
     return out
 
 
+VERUS_ID = None
+
+
+def verus_id():
+    global VERUS_ID
+    if VERUS_ID is None:
+        try:
+            VERUS_ID = subprocess.run(["verus", "--version"], capture_output=True, text=True, timeout=60).stdout.strip()
+        except Exception:
+            VERUS_ID = "verus?"
+    return VERUS_ID
+
+
+def run_verus_cached(path):
+    """run_verus, reusing the result of an earlier run on a byte-identical generated file (same verifier, same flags).
+    The unit file is still generated from /repo on every run; what is skipped is re-verifying text that has already
+    been decided. Only definitive runs are stored (a verdict per function; no time-out, no resource limit, no crash).
+    VERIF_NO_CACHE=1 switches this off."""
+    import hashlib
+    if os.environ.get("VERIF_NO_CACHE"):
+        return run_verus(path, None, None)
+    h = hashlib.sha256()
+    h.update(open(path, "rb").read())
+    h.update(verus_id().encode())
+    h.update(b"flags-v1")
+    key = h.hexdigest()
+    cdir = os.path.join(BUILD, "cache")
+    cp = os.path.join(cdir, key + ".json")
+    if os.path.exists(cp):
+        try:
+            d = json.load(open(cp))
+            d["cached"] = True
+            return d
+        except Exception:
+            pass
+    d = run_verus(path, None, None)
+    definitive = d["result"] is not None and "verification-results" in d["result"] and d["rc"] != -9 \
+        and not d["result"]["verification-results"].get("encountered-vir-error") \
+        and not any(RLIMIT_PAT.search(x.get("message", "")) for x in d["diags"])
+    if definitive:
+        os.makedirs(cdir, exist_ok=True)
+        tmp = cp + f".{os.getpid()}.tmp"
+        with open(tmp, "w") as f:
+            json.dump(d, f)
+        os.replace(tmp, cp)
+    return d
+
+
 def process_unit(unit, tier, seed):
     """returns dict(status=ok|undecided, reason, failures=[...], functions=[...], canary=..., cmd, times)"""
     r = dict(unit=unit, status="ok", reason=None, failures=[], functions=[], canaries=dict(total=0, failed_as_required=0),
@@ -150,9 +198,10 @@ def process_unit(unit, tier, seed):
         r.update(status="undecided", reason="assume()/admit() present in the generated unit")
         return r
     with cf.ThreadPoolExecutor(2) as ex:
-        fm = ex.submit(run_verus, main_rs, None, None)
-        fc = ex.submit(run_verus, can_rs, None, None)
+        fm = ex.submit(run_verus_cached, main_rs)
+        fc = ex.submit(run_verus_cached, can_rs)
         m, c = fm.result(), fc.result()
+    r["cached"] = bool(m.get("cached")) and bool(c.get("cached"))
     r["cmds"].append(m["cmd"])
     r["wall"] = m["wall"] + c["wall"]
     res = m["result"]
@@ -501,7 +550,8 @@ def main():
             samples=samples or [dict(note="no obligation owned")],
             explanation=spec.get("explanation", ""),
             units=[dict(unit=r["unit"], status=r["status"], reason=r["reason"], smt_ms=r["smt_ms"],
-                        wall_s=round(r["wall"], 2), canaries=r["canaries"]) for r in results],
+                        wall_s=round(r["wall"], 2), canaries=r["canaries"],
+                        result_reused_from_identical_text=bool(r.get("cached"))) for r in results],
             functions_under_contract=[dict(id=f["id"], mode=f["mode"], repo=f"{f['file']}:{f['lines'][0]}-{f['lines'][1]}",
                                            sha256=f["sha256"]) for r in results for f in r["functions"]],
             per_function=[pf for r in results for pf in r["per_function"]
